@@ -9,6 +9,7 @@ import (
 	"runtime/debug"
 	"sort"
 	"strings"
+	"sync"
 	"testing"
 	"testing/synctest"
 	"time"
@@ -136,6 +137,7 @@ type Sim struct {
 	harnessErr           string
 	spinning             int
 	stuckProbed, probing bool
+	cmu, vmu             sync.Mutex // counters / ops, violations: see count
 	abandoned            string
 	idleAdvance          int // escalating clock advances tried in the current stall
 	startTime            time.Time
@@ -174,19 +176,27 @@ func (r *Result) Release() {
 	r.Ops, r.Media, r.Events, r.Gens, r.Lines, r.sim = nil, nil, nil, nil, nil, nil
 }
 
-func (s *Sim) count(k string) { s.counter[k]++ }
+// count: counters are written by whichever task is running; a broken engine can make two tasks
+// run at the same time (woken together, no hook in between), hence the mutex.
+func (s *Sim) count(k string) {
+	s.cmu.Lock()
+	s.counter[k]++
+	s.cmu.Unlock()
+}
 
 // countLocked may be called by several goroutines woken in the same step.
-func (s *Sim) countLocked(k string) {
-	s.sched.mu.Lock()
-	s.counter[k]++
-	s.sched.mu.Unlock()
+func (s *Sim) countLocked(k string) { s.count(k) }
+func (s *Sim) countN(k string, n int) {
+	s.cmu.Lock()
+	s.counter[k] += n
+	s.cmu.Unlock()
 }
-func (s *Sim) countN(k string, n int) { s.counter[k] += n }
 
 func (s *Sim) wants(prop string) bool { return s.target == "" || s.target == prop || s.target == "*" }
 
 func (s *Sim) violate(prop, class, detail string, features ...string) {
+	s.vmu.Lock()
+	defer s.vmu.Unlock()
 	for _, v := range s.viols {
 		if v.Prop == prop && v.Class == class {
 			return
@@ -1033,8 +1043,10 @@ func (s *Sim) runClient(ctx context.Context, t *Task, g *Generation, ci int, ops
 			cancel()
 			return
 		}
+		s.cmu.Lock()
 		s.ops = append(s.ops, rec)
 		rec.ID = len(s.ops) - 1
+		s.cmu.Unlock()
 		t.cur = rec
 		rec.Invoked = true
 		rec.InvokeStep = s.sched.step
